@@ -283,4 +283,205 @@ theorem scanSq_none_iff (cs : List Char) (h : scanSq cs = none) : '\'' ∉ cs :=
         exact ⟨fun he => hc he.symm, ih hf⟩
       | some p => simp [hf] at h
 
+/-! ## every token takes at least one character -/
+
+theorem skipLine_none (s : List Char) (hs : '\n' ∉ s) : skipLine s = some [] := by
+  induction s with
+  | nil => rw [skipLine]
+  | cons d s ih =>
+    have hd : d ≠ '\n' := fun h => hs (by rw [h]; simp)
+    rw [skipLine, if_neg hd]
+    exact ih (fun h => hs (by simp [h]))
+
+theorem split_first_nl : ∀ (l : List Char), '\n' ∈ l → ∃ s r, l = s ++ '\n' :: r ∧ '\n' ∉ s := by
+  intro l
+  induction l with
+  | nil => intro h; simp at h
+  | cons d l ih =>
+    intro h
+    by_cases hd : d = '\n'
+    · exact ⟨[], l, by rw [hd]; rfl, by simp⟩
+    · have : '\n' ∈ l := by
+        simp only [List.mem_cons] at h
+        rcases h with h | h
+        · exact absurd h.symm hd
+        · exact h
+      obtain ⟨s, r, h1, h2⟩ := ih this
+      refine ⟨d :: s, r, by rw [h1]; rfl, ?_⟩
+      simp only [List.mem_cons, not_or]
+      exact ⟨fun he => hd he.symm, h2⟩
+
+/-- what `skipGround` leaves is no longer than the text and starts with a character that is not white space -/
+theorem skipGround_le : ∀ (n : Nat) (cs : List Char), cs.length ≤ n → ∀ r, skipGround cs = some r →
+    r.length ≤ cs.length ∧ ∀ c r', r = c :: r' → isSpace c = false := by
+  intro n
+  induction n using Nat.strongRecOn with
+  | _ n ih =>
+    intro cs hn r h
+    cases cs with
+    | nil => rw [skipGround] at h; injection h with h; rw [← h]; exact ⟨Nat.le_refl _, fun c r' h => by cases h⟩
+    | cons c cs' =>
+      simp only [List.length_cons] at hn
+      by_cases hsp : isSpace c = true
+      · rw [skipGround, if_pos hsp] at h
+        obtain ⟨h1, h2⟩ := ih cs'.length (by omega) cs' (Nat.le_refl _) r h
+        exact ⟨by simp only [List.length_cons]; omega, h2⟩
+      · have hsp' : isSpace c = false := by simpa using hsp
+        by_cases hc : c = '/'
+        · subst hc
+          rw [skipGround_slash] at h
+          cases cs' with
+          | nil =>
+            rw [afterSlash] at h; injection h with h; rw [← h]
+            exact ⟨Nat.le_refl _, fun c r' he => by simp only [List.cons.injEq] at he; rw [← he.1]; decide⟩
+          | cons d r1 =>
+            by_cases hd1 : d = '/'
+            · subst hd1
+              rw [afterSlash_line] at h
+              by_cases hnl : '\n' ∈ r1
+              · obtain ⟨s0, r2, hr1, hs0⟩ := split_first_nl r1 hnl
+                rw [hr1, skipLine_found s0 r2 hs0] at h
+                obtain ⟨h1, h2⟩ := ih r2.length (by
+                  rw [hr1] at hn; simp only [List.length_cons, List.length_append] at hn; omega) r2 (Nat.le_refl _) r h
+                refine ⟨?_, h2⟩
+                rw [hr1]; simp only [List.length_cons, List.length_append]; omega
+              · rw [skipLine_none r1 hnl] at h
+                injection h with h; rw [← h]
+                exact ⟨by simp, fun c r' he => by cases he⟩
+            · by_cases hd2 : d = '*'
+              · subst hd2
+                rw [afterSlash_block] at h
+                cases hf : findSS r1 with
+                | none => rw [skipBlock_none r1 hf] at h; cases h
+                | some p =>
+                  obtain ⟨s0, r2⟩ := p
+                  rw [skipBlock_found r1 s0 r2 hf] at h
+                  have hsp2 := findSS_split r1.length r1 (Nat.le_refl _) s0 r2 hf
+                  obtain ⟨h1, h2⟩ := ih r2.length (by
+                    rw [hsp2] at hn; simp only [List.length_cons, List.length_append] at hn; omega) r2 (Nat.le_refl _) r h
+                  refine ⟨?_, h2⟩
+                  rw [hsp2]; simp only [List.length_cons, List.length_append]; omega
+              · rw [afterSlash_token (d :: r1) (fun c' r' he => by
+                  simp only [List.cons.injEq] at he; rw [← he.1]; exact ⟨hd1, hd2⟩)] at h
+                injection h with h; rw [← h]
+                exact ⟨Nat.le_refl _, fun c r' he => by simp only [List.cons.injEq] at he; rw [← he.1]; decide⟩
+        · rw [skipGround_token c cs' hsp' hc] at h
+          injection h with h; rw [← h]
+          exact ⟨Nat.le_refl _, fun c' r' he => by simp only [List.cons.injEq] at he; rw [← he.1]; exact hsp'⟩
+
+theorem scanSq_length (cs s r : List Char) (h : scanSq cs = some (s, r)) : r.length < cs.length := by
+  obtain ⟨h1, _⟩ := scanSq_split cs s r h
+  rw [h1]; simp only [List.length_cons, List.length_append]; omega
+
+theorem scanDq_length : ∀ (n : Nat) (cs : List Char), cs.length ≤ n → ∀ (s : List QItem) (r : List Char),
+    scanDq cs = some (s, r) → r.length < cs.length := by
+  intro n
+  induction n with
+  | zero =>
+    intro cs hn s r h
+    have : cs = [] := List.eq_nil_of_length_eq_zero (by omega)
+    subst this; simp [scanDq] at h
+  | succ n ih =>
+    intro cs hn s r h
+    cases cs with
+    | nil => simp [scanDq] at h
+    | cons c cs =>
+      unfold scanDq at h
+      split at h
+      · simp only [Option.some.injEq, Prod.mk.injEq] at h
+        rw [← h.2]; simp
+      · split at h
+        · split at h
+          · cases h
+          · rename_i e r0
+            cases hs : scanDq r0 with
+            | none => simp [hs] at h
+            | some p =>
+              obtain ⟨s', r'⟩ := p
+              simp only [hs, Option.map_some, Option.some.injEq, Prod.mk.injEq] at h
+              have := ih r0 (by simp only [List.length_cons] at hn; omega) s' r' hs
+              rw [← h.2]; simp only [List.length_cons]; omega
+        · cases hs : scanDq cs with
+          | none => simp [hs] at h
+          | some p =>
+            obtain ⟨s', r'⟩ := p
+            simp only [hs, Option.map_some, Option.some.injEq, Prod.mk.injEq] at h
+            have := ih cs (by simp only [List.length_cons] at hn; omega) s' r' hs
+            rw [← h.2]; simp only [List.length_cons]; omega
+
+theorem dropWhile_length_le {α : Type} (p : α → Bool) (l : List α) : (l.dropWhile p).length ≤ l.length := by
+  induction l with
+  | nil => simp
+  | cons a l ih =>
+    rw [List.dropWhile_cons]
+    split
+    · simp only [List.length_cons]; omega
+    · exact Nat.le_refl _
+
+/-- a token takes at least one character; its offset lies inside the text -/
+theorem specNext_lt (n : Nat) (cs : List Char) (t : PTok) (rest : List Char)
+    (h : specNext n cs = some (some (t, rest))) : rest.length < cs.length ∧ t.off ≤ n := by
+  unfold specNext at h
+  cases hg : skipGround cs with
+  | none => rw [hg] at h; simp [specNextG] at h
+  | some l =>
+    rw [hg] at h
+    obtain ⟨hle, hhead⟩ := skipGround_le cs.length cs (Nat.le_refl _) l hg
+    cases l with
+    | nil => simp [specNextG] at h
+    | cons c r =>
+      have hcs := hhead c r rfl
+      simp only [List.length_cons] at hle
+      unfold specNextG at h
+      simp only at h
+      split at h
+      · simp only [Option.some.injEq, Prod.mk.injEq] at h; rw [← h.2, ← h.1]; exact ⟨by omega, Nat.sub_le _ _⟩
+      · split at h
+        · simp only [Option.some.injEq, Prod.mk.injEq] at h; rw [← h.2, ← h.1]; exact ⟨by omega, Nat.sub_le _ _⟩
+        · split at h
+          · simp only [Option.some.injEq, Prod.mk.injEq] at h; rw [← h.2, ← h.1]; exact ⟨by omega, Nat.sub_le _ _⟩
+          · split at h
+            · cases hs : scanSq r with
+              | none => simp [hs] at h
+              | some p =>
+                obtain ⟨s, r'⟩ := p
+                simp only [hs, Option.some.injEq, Prod.mk.injEq] at h
+                have := scanSq_length r s r' hs
+                rw [← h.2, ← h.1]; exact ⟨by omega, Nat.sub_le _ _⟩
+            · split at h
+              · cases hs : scanDq r with
+                | none => simp [hs] at h
+                | some p =>
+                  obtain ⟨s, r'⟩ := p
+                  simp only [hs, Option.some.injEq, Prod.mk.injEq] at h
+                  have := scanDq_length r.length r (Nat.le_refl _) s r' hs
+                  rw [← h.2, ← h.1]; exact ⟨by omega, Nat.sub_le _ _⟩
+              · rename_i h1 h2 h3 h4 h5
+                simp only [Option.some.injEq, Prod.mk.injEq] at h
+                have hnd : isDelim c = false := by simp [isDelim, hcs, h1, h2, h3, h4, h5]
+                have : (c :: r).dropWhile (fun x => !isDelim x) = r.dropWhile (fun x => !isDelim x) := by
+                  simp [List.dropWhile_cons, hnd]
+                have hl := dropWhile_length_le (fun x => !isDelim x) r
+                rw [← h.2, ← h.1, this]; exact ⟨by omega, Nat.sub_le _ _⟩
+
+/-- more fuel than characters + 1 changes nothing -/
+theorem tokensAux_fuel (n : Nat) : ∀ (f : Nat) (cs : List Char), cs.length + 1 ≤ f →
+    tokensAux n (f + 1) cs = tokensAux n f cs := by
+  intro f
+  induction f with
+  | zero => intro cs h; omega
+  | succ f ih =>
+    intro cs h
+    rw [tokensAux_succ n (f + 1) cs, tokensAux_succ n f cs]
+    cases hs : specNext n cs with
+    | none => rfl
+    | some o =>
+      cases o with
+      | none => rfl
+      | some p =>
+        obtain ⟨t, r⟩ := p
+        simp only
+        have := (specNext_lt n cs t r hs).1
+        rw [ih r (by omega)]
+
 end Goyang.Lemmas.Scan
